@@ -50,8 +50,13 @@ func init() {
 			return StructV{[]Value{term.BVC(64, 0), term.Add(now, term.BVC(64, unixToInternal)), Ptr{}}}
 		}
 		if !frozen {
-			// a frozen clock is a modelling assumption: it must be asked for
-			panic(in.inconclusive("unmodelled call: time.Now (stub a repository-level clock seam, or add \"clock:frozen\" (a clock that stands still) or \"clock:symbolic\" (one arbitrary instant per path) to \"execute\" in harness.json)"))
+			// no clock model asked for: run time.Now's own body (its runtime
+			// clock read `time.now` has no body: INCONCLUSIVE unless the harness
+			// lists it under "havoc", which makes the instant unconstrained)
+			if fn.Blocks == nil && fn.Pkg != nil {
+				fn.Pkg.Build()
+			}
+			return in.runFunction(fn, args, nil)
 		}
 		return StructV{[]Value{term.BVC(64, 0), term.BVC(64, uint64(fakeNowUnix+unixToInternal)), Ptr{}}}
 	})
